@@ -85,6 +85,14 @@ def site(draw, counter):
                                    "tags": e["tags"]}])
         else:
             parts.append(["lit", draw(st.sampled_from(LIT[base]))])
+    # the very same expression text a second time in one site: it is
+    # evaluated again (the recorder shows its tag twice)
+    if draw(st.integers(0, 4)) == 0:
+        idx = [i for i, p_ in enumerate(parts) if p_[0] == "expr"]
+        if idx:
+            i = draw(st.sampled_from(idx))
+            j = draw(st.integers(i + 1, len(parts)))
+            parts.insert(j, ["expr", dict(parts[i][1])])
     # escaped interpolations ($${...} stands for the text ${...}) at the
     # very start of the site and directly behind an interpolation
     esc = ["$${x}", "$$$${a}", "$${a}$${b}", "$${", "$$"]
